@@ -12,7 +12,7 @@ sys.path.insert(0, HERE)
 
 import facts  # noqa: E402
 from interp import Program  # noqa: E402
-from values import Unanalysable  # noqa: E402
+from values import Unanalysable, PathEnd as PathEndLike  # noqa: E402
 import absgen as G  # noqa: E402
 import refmachine as R  # noqa: E402
 
@@ -181,4 +181,11 @@ def run_property(pid, tier, rule_fn):
         res.coverage = {"explanation": "analysis aborted: fails closed", "evaluations": 1, "distinct_nontrivial": 2}
         res.add("engine", "unanalysable/" + re.sub(r"[^A-Za-z0-9_:<>.-]+", "_", e.what)[:120],
                 "unanalysable construct (fails closed): %s" % e)
+    except (PathEndLike, RecursionError, KeyError, IndexError, TypeError, AttributeError, ValueError, AssertionError) as e:
+        # an internal error of the analysis must never look like a pass: fail closed, with the reason
+        level = getattr(rule_fn, "level", "other")
+        res = Result(pid, level)
+        res.coverage = {"explanation": "analysis aborted by an internal error: fails closed", "evaluations": 1, "distinct_nontrivial": 2}
+        tb = traceback.format_exc().strip().splitlines()
+        res.add("engine", "internal-error/%s" % type(e).__name__, "internal error of the checker (fails closed): %s | %s" % (tb[-1][:200], " <- ".join(l.strip() for l in tb[-7:-1:2])[:400]))
     return finish(res, env)
